@@ -661,6 +661,20 @@ class Rewriter:
         extra = ', Ghost(*source_vec)' if c.get('drain_drop') else ''
         b = self.sub('R19:for_each-drop', r'\bself\.for_each\(drop\);',
                      'loop {\n            match self.next(hs%s) {\n                Some(x__) => {\n                    elem_drop(ds, x__);\n                }\n                None => { break; }\n            }\n        }' % extra, b)
+        if c.get('splice_drop'):
+            # R30: Splice::drop.  `self.drain.by_ref().for_each(drop)` is by definition: next() until None, dropping every item; the
+            # Drain's back-pointer to its Vec is the explicit parameter `vec`; `by_ref()` hands the callee the remaining items; the field
+            # `drain` is dropped when Splice::drop returns (Drop glue): made explicit before every `return` and at the end
+            b = self.sub('R19:for_each-drop', r'\bself\.drain\.by_ref\(\)\.for_each\(drop\);',
+                         'loop {\n            match self.drain.next(hs, Ghost(*vec)) {\n                Some(x__) => {\n                    elem_drop(ds, x__);\n                }\n                None => { break; }\n            }\n        };', b)
+            b = self.sub('R22:vec-backref', r'\bself\.drain\.vec\.as_mut\(\)\.', 'vec.', b)
+            b = self.sub('R22:vec-backref', r'\bself\.drain\.vec\.as_ref\(\)\.', 'vec.', b)
+            b = self.sub('R30:drop-glue', r'\breturn;', '{ self.drain.drop(hs, ds, vec); return; }', b)
+            k = b.rindex('}')
+            b = b[:k] + '    self.drain.drop(hs, ds, vec); /* R30: Drop glue of the field `drain` */\n    ' + b[k:]
+            b = self.sub('R30:into-itm', r'\bcollected\.into_iter\(\)', 'vec_into_itm(hs, collected)', b)
+            b = self.map_calls(b, r'\bself\.drain\.fill', lambda m_, a: 'self.drain.fill(hs, vec, %s)' % ', '.join(a), 'R12:thread-heap')
+            b = self.map_calls(b, r'\bself\.drain\.move_tail', lambda m_, a: 'self.drain.move_tail(hs, vec, %s)' % ', '.join(a), 'R12:thread-heap')
         # R12: thread the ghost heap through the calls that take it
         thread = lambda extra: (lambda m_, a: None if (a and a[0] == 'hs') else '%s(%s)' % (m_.group(0).rstrip('(').rstrip(), ', '.join(extra + a)))
         for name in ['reserve', 'cap', 'capacity', 'append_elements', 'extend_from_slice_copy_unchecked', 'extend_from_slice_copy', 'extend_from_slice',
